@@ -29,8 +29,10 @@ def _dir(rnd, n=None, connected=False, wkind=None):
     return W
 
 
-def _signed(rnd, directed, small=False):
+def _signed(rnd, directed, small=False, maybe_unsigned=False):
     W, _ = gen.signed_graph(rnd, directed, nmax=5 if small else 8)
+    if maybe_unsigned and rnd.random() < 0.25:
+        W = np.abs(W)  # the null models document non-negative input as legal (their 'no negative weights' branch)
     return W
 
 
@@ -81,9 +83,9 @@ reg('randomizer_bin_und', lambda r: ((_und(r, wkind='bin', fam=r.choice(('er_mid
 # -- signed null models ---------------------------------------------------------------------------
 reg('randmio_und_signed', lambda r: ((_signed(r, False, small=r.random() < 0.5), _itr(r)), {}))
 reg('randmio_dir_signed', lambda r: ((_signed(r, True, small=r.random() < 0.5), _itr(r)), {}))
-reg('null_model_und_sign', lambda r: ((_signed(r, False, small=r.random() < 0.5),), {'bin_swaps': r.choice((1, 2)), 'wei_freq': r.choice((0.3, 1))}),
+reg('null_model_und_sign', lambda r: ((_signed(r, False, small=r.random() < 0.5, maybe_unsigned=True),), {'bin_swaps': r.choice((1, 2)), 'wei_freq': r.choice((0.3, 1))}),
     bad=lambda r: ((_signed(r, True),), {}))
-reg('null_model_dir_sign', lambda r: ((_signed(r, True, small=r.random() < 0.5),), {'bin_swaps': r.choice((1, 2)), 'wei_freq': r.choice((0.3, 1))}))
+reg('null_model_dir_sign', lambda r: ((_signed(r, True, small=r.random() < 0.5, maybe_unsigned=True),), {'bin_swaps': r.choice((1, 2)), 'wei_freq': r.choice((0.3, 1))}))
 # -- synthetic generators -------------------------------------------------------------------------
 reg('makerandCIJ_und', lambda r: ((r.randint(4, 8), r.randint(1, 6)), {}))
 reg('makerandCIJ_dir', lambda r: ((r.randint(4, 8), r.randint(1, 12)), {}))
